@@ -998,6 +998,18 @@ struct HashMgrSim : Sim {
                                             strfmt("%s: manager init returned %d", s.tag.c_str(), rc));
                 }
                 e.check_buf(s.mgr, "mgr_init");
+                if ((p.seed >> 13 & 7) == 0) {
+                        // recycled manager: initialised, partly overwritten while unused, initialised again
+                        e.recycle_corrupt(s.mgr, d.mgr_size, mix64(p.seed, 0x2ee1));
+                        s.r->cov.hit("fault_object_recycled_between_two_inits_manager");
+                        if (s.api == API_FAMILY)
+                                e.call((std::string("_") + d.name + "_ctx_mgr_init_" + s.f->name).c_str(), s.f->init, { U(s.mgr) });
+                        else if (s.api == API_LEGACY)
+                                e.call((std::string(d.name) + "_ctx_mgr_init").c_str(), d.leg_init, { U(s.mgr) });
+                        else
+                                e.call((std::string("isal_") + d.name + "_ctx_mgr_init").c_str(), d.isal_init, { U(s.mgr) });
+                        e.check_buf(s.mgr, "mgr_init");
+                }
                 for (size_t i = 0; i < p.ops.size(); i++) {
                         e.op_index = (int) i;
                         const Op &o = p.ops[i];
